@@ -354,6 +354,43 @@ func (r *rewriter) file2(f *ast.File) {
 			c.Replace(&ast.BlockStmt{List: list})
 			r.changed = true
 		case *ast.RangeStmt:
+			if tv, ok := r.info.Types[x.X]; ok && tv.Type != nil {
+				if _, isMap := tv.Type.Underlying().(*types.Map); isMap && !strings.HasPrefix(filepath.Base(r.file), "zz_verif") {
+					// for k, v := range m  ->  for _, e := range vsched.MapEntries(m) { if !e.Live() { continue }; k, v := e.K, e.Val(); ... }
+					r.inv["range-over-map"]++
+					r.n++
+					e := ast.NewIdent(fmt.Sprintf("vs_e%d", r.n))
+					pre := []ast.Stmt{&ast.IfStmt{Cond: &ast.UnaryExpr{Op: token.NOT, X: call(&ast.SelectorExpr{X: e, Sel: ast.NewIdent("Live")})},
+						Body: &ast.BlockStmt{List: []ast.Stmt{&ast.BranchStmt{Tok: token.CONTINUE}}}}}
+					named := func(ex ast.Expr) bool {
+						if ex == nil {
+							return false
+						}
+						id, isID := ex.(*ast.Ident)
+						return !isID || id.Name != "_"
+					}
+					var lhs, rhs []ast.Expr
+					if named(x.Key) {
+						lhs = append(lhs, x.Key)
+						rhs = append(rhs, &ast.SelectorExpr{X: e, Sel: ast.NewIdent("K")})
+					}
+					if named(x.Value) {
+						lhs = append(lhs, x.Value)
+						rhs = append(rhs, call(&ast.SelectorExpr{X: e, Sel: ast.NewIdent("Val")}))
+					}
+					if len(lhs) > 0 {
+						pre = append(pre, &ast.AssignStmt{Lhs: lhs, Tok: x.Tok, Rhs: rhs})
+						if x.Tok == token.DEFINE {
+							// the loop variables may be unused in the body only if they were "_": nothing to do
+						}
+					}
+					x.Body.List = append(pre, x.Body.List...)
+					x.Key, x.Value, x.Tok = ast.NewIdent("_"), e, token.DEFINE
+					x.X = call(vs("MapEntries"), x.X)
+					r.changed = true
+					return true
+				}
+			}
 			if !r.isChan(x.X) {
 				return true
 			}
